@@ -191,7 +191,8 @@ def run(ctx, rep):
 
     # ---------------- R14.3 -------------------------------------------------------------
     rep.rule("R14.3", "once the worker has observed that its channel is closed (the store was dropped) it performs no file mutation before quitting")
-    recv_list = list(recvs) + Pw.calls(r"mpsc::Receiver::<T>::(try_recv|recv_timeout)$")
+    # only a failed blocking recv() means "closed": try_recv / recv_timeout also fail when the queue is merely empty
+    recv_list = list(recvs)
 
     def stepq(ms, pi, qi, learn):
         for o, v in norm_learn(learn):
